@@ -108,6 +108,8 @@ def run(ctx):
     # process, in both orders - a definitions object remembered per release, per directory prefix or per process would serve the wrong set
     pbad = player_definitions(ctx)
     if pbad and bad is None: bad = pbad
+    # the type an entity id denotes is the one its LAST creation packet names (ids are re-used): histories with re-creation under another type
+    worldcheck.run_histories(ctx, 'C04', n_defsets=6 if ctx.tier == 'quick' else 40, hist_per_set=3, sizes=[60, 150], dialects=('wows', 'wows126', 'wot'))
     ctx.traces_validated += len(dirs) + n
     ctx.obligation('correspondence: library index maps = extracted model on %d bundled + %d generated definition sets' % (len(dirs), n), bad is None,
                    '' if bad is None else json.dumps({k: v for k, v in bad.items() if k != 'defs'}))
